@@ -9,7 +9,7 @@ from ..core import CRASH
 
 ID = "C19"
 LEVEL = "exploration"
-RULE = ("every string of <=3 (thorough 4) atoms over a 25-atom typographic alphabet (quotes, escaped quotes, entity "
+RULE = ("every string of <=3 (thorough 4) atoms over a 33-atom typographic alphabet (quotes, escaped quotes, entity "
         "quotes, code spans, links with titles, raw HTML, autolinks with quotes, (c) -- ... +- !!!! line breaks) x "
         "{replacements, smartquotes, both} x 4 quote option shapes (4-char string, lists with multi-character, empty "
         "and NBSP strings) x {commonmark, js-default, commonmark html off}: the stream with the typographer on has the "
@@ -20,7 +20,9 @@ RULE = ("every string of <=3 (thorough 4) atoms over a 25-atom typographic alpha
         "containing a quote or a replaceable sequence; distinct = distinct (rule set, quotes, on-stream text).")
 
 ATOMS = ["a", " ", '"', "'", "*", "`", "[", "](u 't')", '\\"', "&quot;", "<b>", "<http://a'b>", "(c)", "--", "...", "\n",
-         "1", ".", "!!!!", "+-", "\\'", "<a href=\"x'y\">", "(tm) ", "[l](u)", "<http://x/(c)--y...z(tm)>"]
+         "1", ".", "!!!!", "+-", "\\'", "<a href=\"x'y\">", "(tm) ", "[l](u)", "<http://x/(c)--y...z(tm)>",
+         # an opening quote left unmatched in one block, a later block; a whole code span; entity-spelled letters
+         "\"a\n\n", "'a\n\n> ", "`c`", "*b*", "(&#99;)", "(&#x54;m)", "&#99;", "&#45;&#45;"]
 QUOTES = ["“”‘’", ["<<", ">>", "<", ""], "abcd", ["« ", " »", "‹ ", " ›"]]
 BASES = [("commonmark", {}), ("js-default", {}), ("commonmark", {"html": False})]
 MODES = [("both", ["replacements", "smartquotes"]), ("sq", ["smartquotes"]), ("repl", ["replacements"])]
@@ -110,6 +112,37 @@ def one(bi, qi, s, acc):
     return None
 
 
+ENT = {"&#99;": "c", "&#x54;": "T", "&#45;": "-"}
+# the twin spells an inert private-use character as a reference too, so token boundaries and the source characters
+# next to the reference ('&', ';') are the same in both
+PUA = {"&#99;": ("&#xE000;", "\ue000"), "&#x54;": ("&#xE001;", "\ue001"), "&#45;": ("&#xE002;", "\ue002")}
+
+
+def entity_inert(bi, qi, s, acc):
+    """a character written as a character reference is never rewritten: replacing the reference by an inert
+    private-use character and substituting it back afterwards must give the same rendering (letters and digits
+    only, whose neighbourhood class for the quote rules equals that of the placeholder)"""
+    if not any(e in s for e in ENT) or any(ch in s for ch in "`<"):
+        return None  # inside code spans, autolinks and raw HTML references are not decoded at all
+    off, off_nj, on, alts = mds(bi, qi)
+    m = on["repl"][0]
+    twin = s
+    for e, (ref, ch) in PUA.items():
+        if ENT[e].isalnum():
+            twin = twin.replace(e, ref)
+    if twin == s:
+        return None
+    a = acc.call(m.render, s)
+    b = acc.call(m.render, twin)
+    if a is CRASH or b is CRASH:
+        return None
+    for e, (ref, ch) in PUA.items():
+        b = b.replace(ch, ENT[e])
+    if a != b:
+        return f"repl: a character written as a reference takes part in a replacement: {a!r} vs {b!r}"
+    return None
+
+
 def bounds(tier):
     return {"atoms": ATOMS, "L": 4 if tier == "thorough" else 3, "quotes": QUOTES, "bases": BASES, "modes": MODES}
 
@@ -133,8 +166,12 @@ def run_shard(sh, acc):
             s = f + "".join(combo)
             acc.case()
             r = one(bi, qi, s, acc)
+            if not r:
+                e = entity_inert(bi, qi, s, acc)
+                if e:
+                    r = (e, "repl")
             if r:
-                acc.violation("typo", r[0].split(": {")[0][:90] if "->" not in r[0] else "sq: smartquotes changed text other than straight quotes",
+                acc.violation("typo", (r[0].split(": {")[0].split(": '")[0][:90]) if "->" not in r[0] else "sq: smartquotes changed text other than straight quotes",
                               {"base": bi, "quotes": qi, "s": s}, r[0])
     acc.sample("typo", {"base": BASES[bi], "quotes": QUOTES[qi], "s": f + "\"a\" 'b' -- (c)"}, 1)
 
@@ -142,6 +179,10 @@ def run_shard(sh, acc):
 def check_case(case, acc):
     acc.case()
     r = one(case["base"], case["quotes"], case["s"], acc)
+    if not r:
+        e = entity_inert(case["base"], case["quotes"], case["s"], acc)
+        if e:
+            r = (e, "repl")
     if r:
-        acc.violation("typo", r[0].split(": {")[0][:90] if "->" not in r[0] else "sq: smartquotes changed text other than straight quotes",
+        acc.violation("typo", (r[0].split(": {")[0].split(": '")[0][:90]) if "->" not in r[0] else "sq: smartquotes changed text other than straight quotes",
                       {k: case[k] for k in ("base", "quotes", "s")}, r[0])
